@@ -287,15 +287,22 @@ theorem config_astar_cost_eq_dijkstra_cost (c : Config α) (h : c.EdgeLocal) (hw
   · rw [hsum]; exact hmin'' _ hw
 
 /-- **a least-cost route IS returned** (Dijkstra; schedule existence and termination): on a
-well-formed configuration (`Config.WellFormedDistance`, `Config.GraphOK`: distance model, no call of a
-component fails) over the vertices `< c.nV`, without a limit that fires, for every destination that
-is reachable from the origin through permitted edges there is a schedule of at most `|V| + 1` pops on
-which the search returns a route, and that route has least summed cost; moreover *every* accepted
-schedule that ends (`IsFinal`: the outcome is not one of the two replay errors of the model) ends in
-such a route -/
+well-formed configuration (`Config.WellFormedDistance`, `Config.GraphOK`: **distance traversal
+model, no access model, no turn restrictions, every vertex in the coordinate range**, no call of a
+component fails) over the vertices `< c.nV`, whose termination model does **not fire within `|V|`
+iterations and `|V| · D` tree entries** (`D` a bound on the number of incident edges of a vertex —
+more than any Dijkstra run reaches, so a configured iterations / solution-size / runtime limit above
+that is inside the premise, the empty combined model trivially; until the second review the premise
+was `∀ sz it, c.term.test sz it = .ok ()`, which the empty combined model alone meets), for every
+destination that is reachable from the origin through permitted edges there is a schedule of at most
+`|V| + 1` pops on which the search returns a route, and that route has least summed cost; moreover
+*every* accepted schedule that ends (`IsFinal`: the outcome is not one of the two replay errors of the
+model) ends in such a route -/
 theorem config_dijkstra_least_cost_route_returned (c : Config α) {du : DistanceUnit}
     (W : c.WellFormedDistance du) {source t : Nat} (G : c.GraphOK source true)
-    (hwf : c.wf = some 0) (hlim : ∀ sz it, c.term.test sz it = .ok ()) (hsrc : source < c.nV)
+    (hwf : c.wf = some 0) {D : Nat} (hD : ∀ v, (c.inst.incident v).length ≤ D)
+    (hlim : ∀ sz it, it ≤ c.nV → sz ≤ c.nV * D → c.term.test sz it = .ok ())
+    (hsrc : source < c.nV)
     (hV : c.VerticesBelow c.nV) (hts : t ≠ source)
     (hreach : ∃ es, Walk c.inst c.okOf source es t) :
     (∃ sched r route, sched.length ≤ c.nV + 1 ∧ c.runVertex source (some t) sched = .ok r ∧
@@ -314,7 +321,8 @@ theorem config_dijkstra_least_cost_route_returned (c : Config α) {du : Distance
         ∀ es, Walk c.inst c.okOf source es t →
           (route.map (fun b => b.access + b.traversal)).sum ≤ cost c.costOf es := by
     intro sched hfin
-    obtain ⟨_, hiff, _⟩ := SearchTermination.config_final_decides c W G hlim hfin
+    obtain ⟨_, hiff, _⟩ := SearchTermination.config_final_decides c W G
+      (SearchTermination.config_dijkstra_bound c G.adj hwf hsrc hV (some t)) hD hlim hfin
     obtain ⟨r, hr⟩ := hiff.2 hreach
     obtain ⟨route, h1, _, h3, _, h5⟩ := config_dijkstra_route_least_cost c hEL hwf hts hr
     exact ⟨r, route, hr, h1, h3, h5⟩
@@ -529,8 +537,37 @@ example : ∃ sched r route, sched.length ≤ 6 ∧ exC0.runVertex 0 (some 3) sc
     ⟨(exC_graphOK 0 (by decide) true).adj, (exC_graphOK 0 (by decide) true).inc_range,
       (exC_graphOK 0 (by decide) true).gc_source, (exC_graphOK 0 (by decide) true).gc_range⟩
   have hw : Walk exC0.inst exC0.okOf 0 [0, 7] 3 := by simp only [Walk]; decide +kernel
-  exact (config_dijkstra_least_cost_route_returned exC0 W (source := 0) (t := 3) G rfl
-    (fun sz it => SearchLimits.combined_nil_test sz it) (by decide) (by decide) (by decide)
+  have hD : ∀ v, (exC0.inst.incident v).length ≤ 3 := by
+    intro v
+    match v with
+    | 0 | 1 | 2 | 3 => simp [Config.inst, exC0, exC]
+    | n + 4 => simp [Config.inst, exC0, exC]
+  exact (config_dijkstra_least_cost_route_returned exC0 W (source := 0) (t := 3) G rfl hD
+    (fun sz it _ _ => SearchLimits.combined_nil_test sz it) (by decide) (by decide) (by decide)
+    ⟨[0, 7], hw⟩).1
+
+/-- the same under a **configured limit**: `exC` itself carries an iterations limit of 100, which does
+not fire within the 5 iterations (and 15 tree entries) a Dijkstra run on its 5 vertices can reach —
+the premise `hlim` is met by a real limit, and the least-cost route is returned -/
+example : ∃ sched r route, sched.length ≤ 6 ∧ exC.runVertex 0 (some 3) sched = .ok r ∧
+    r.routes = [route] ∧
+    ∀ es, Walk exC.inst exC.okOf 0 es 3 →
+      (route.map (fun b => b.access + b.traversal)).sum ≤ cost exC.costOf es := by
+  have hw : Walk exC.inst exC.okOf 0 [0, 7] 3 := by simp only [Walk]; decide +kernel
+  have hD : ∀ v, (exC.inst.incident v).length ≤ 3 := by
+    intro v
+    match v with
+    | 0 | 1 | 2 | 3 => simp [Config.inst, exC]
+    | n + 4 => simp [Config.inst, exC]
+  have hlim : ∀ sz it, it ≤ exC.nV → sz ≤ exC.nV * 3 → exC.term.test sz it = .ok () := by
+    intro sz it hit _
+    have hit' : it ≤ 5 := hit
+    have h1 : ¬ (it + 1 > 100) := by omega
+    show (TermM.iters 100).test sz it = .ok ()
+    rw [SearchLimits.test_ok_iff]
+    simp [TermM.fires, h1]
+  exact (config_dijkstra_least_cost_route_returned exC exC_wellFormed (source := 0) (t := 3)
+    (exC_graphOK 0 (by decide) true) rfl hD hlim (by decide) (by decide) (by decide)
     ⟨[0, 7], hw⟩).1
 
 /-- a zero table speed: the search that relaxes such an edge fails with a traversal error, it does
